@@ -2,6 +2,7 @@ package sym
 
 import (
 	"fmt"
+	"strings"
 )
 
 // Harness intrinsics: functions declared in the overlay file zz_verif_rt.go
@@ -442,5 +443,18 @@ func init() {
 	intrinsics["vObserve"] = func(ex *Exec, fr *frame, args []Value) Value {
 		ex.X.obs = append(ex.X.obs, obsRec{concreteName(ex, args[0]), args[1].(*Str)})
 		return nil
+	}
+}
+
+func init() {
+	intrinsics["vPendingGoNamed"] = func(ex *Exec, fr *frame, args []Value) Value {
+		sub := concreteName(ex, args[0])
+		n := 0
+		for _, g := range ex.sch.gors[1:] {
+			if !g.done && g.fn != nil && g.fn.Fn != nil && strings.Contains(g.fn.Fn.Name(), sub) {
+				n++
+			}
+		}
+		return ex.i64(int64(n))
 	}
 }
